@@ -120,8 +120,9 @@ impl Router {
             // an EQUALS/REGEX path with a method-specific rule wins outright,
             // then EQUALS/REGEX with any method (EQUALS before REGEX in both
             // cases), then the longest PREFIX, method-specific before
-            // method-agnostic at equal length. The first rule keeps the slot on
-            // an exact tie, so the result never depends on insertion order.
+            // method-agnostic at equal length. Only two REGEX rules matching the
+            // same request can tie (documented as undefined ordering): the first
+            // one keeps the slot.
             let mut matched: Option<((u8, usize, u8), &PathRule, &Route)> = None;
 
             for (rule, method_rule, route) in path_rules {
